@@ -235,8 +235,20 @@ def _timed_kill(rec, case):
         # wait until the build has started (first trace line), then kill after a random part of a typical build time
         t0 = time.time()
         while time.time() - t0 < 120 and not os.path.exists(trace) and p.poll() is None: time.sleep(0.05)
-        frac = float(rng.uniform(0.0, 1.05)); fracs.append(round(frac, 3))
-        time.sleep(frac * _BUILD_S[0])
+        if rng.random() < 0.5:
+            # anchored on a stage of the trace (independent of how fast this machine builds): shortly after the stage was passed;
+            # after 'cythonized' this is inside the C compilation, which takes several seconds everywhere
+            st = ['cache_miss', 'pyx_written', 'cythonized', 'cythonized'][int(rng.integers(0, 4))]
+            while time.time() - t0 < 240 and p.poll() is None:
+                try:
+                    if any(l.split()[1] == st for l in open(trace)): break
+                except Exception: pass
+                time.sleep(0.05)
+            d_ = float(rng.uniform(0.0, 2.0 if st == 'cythonized' else 0.5)); fracs.append('%s+%.2fs' % (st, d_))
+            time.sleep(d_)
+        else:
+            frac = float(rng.uniform(0.0, 1.05)); fracs.append(round(frac, 3))
+            time.sleep(frac * _BUILD_S[0])
         alive = p.poll() is None
         try: os.killpg(p.pid, signal.SIGKILL)
         except Exception: pass
